@@ -67,7 +67,12 @@ impl Resolver {
         }
     }
 
-    fn lookup_exact(&mut self, name: &Rc<String>, context: Namespace) -> bool {
+    // The lookup functions don't load anything, they list what a name
+    // refers to in `deps`, in the order it has to be loaded. `visit`
+    // walks those lists with its own stack, so that a long chain of
+    // definitions can't exhaust the call stack.
+
+    fn lookup_exact(&self, name: &Rc<String>, context: Namespace, deps: &mut Vec<Id>) -> bool {
         let to_check: &[Namespace] = match context {
             Namespace::Quantity => &[Namespace::Quantity],
             _ => &[Namespace::Unit, Namespace::Prefix, Namespace::Quantity],
@@ -78,15 +83,20 @@ impl Resolver {
                 name: name.clone(),
             };
             if self.input.contains_key(&id) {
-                self.visit(&id);
+                deps.push(id);
                 return true;
             }
         }
         false
     }
 
-    fn lookup_with_prefix(&mut self, name: &Rc<String>, context: Namespace) -> bool {
-        if self.lookup_exact(name, context) {
+    fn lookup_with_prefix(
+        &self,
+        name: &Rc<String>,
+        context: Namespace,
+        deps: &mut Vec<Id>,
+    ) -> bool {
+        if self.lookup_exact(name, context, deps) {
             return true;
         }
         let mut found = vec![];
@@ -96,25 +106,25 @@ impl Resolver {
             }
         }
         found.into_iter().any(|pre| {
-            self.lookup_exact(&Rc::new(name[pre.name.len()..].to_owned()), context) && {
-                self.visit(&pre);
+            self.lookup_exact(&Rc::new(name[pre.name.len()..].to_owned()), context, deps) && {
+                deps.push(pre);
                 true
             }
         })
     }
 
-    fn lookup(&mut self, name: &Rc<String>, context: Namespace) -> bool {
-        self.lookup_with_prefix(name, context)
+    fn lookup(&self, name: &Rc<String>, context: Namespace, deps: &mut Vec<Id>) -> bool {
+        self.lookup_with_prefix(name, context, deps)
             || name.ends_with('s') && {
                 let name = &Rc::new(name[0..name.len() - 1].to_owned());
-                self.lookup_with_prefix(name, context)
+                self.lookup_with_prefix(name, context, deps)
             }
-            || self.lookup_formula(name)
+            || self.lookup_formula(name, deps)
     }
 
     /// A name that is a chemical formula (CO2) depends on the
     /// substances of its elements.
-    fn lookup_formula(&mut self, name: &str) -> bool {
+    fn lookup_formula(&self, name: &str, deps: &mut Vec<Id>) -> bool {
         let mut elements = vec![];
         let mut chars = name.chars().peekable();
         while let Some(c) = chars.next() {
@@ -133,76 +143,99 @@ impl Resolver {
                 _ => return false,
             }
         }
-        for id in &elements {
-            self.visit(id);
-        }
-        !elements.is_empty()
+        let any = !elements.is_empty();
+        deps.extend(elements);
+        any
     }
 
-    fn eval(&mut self, expr: &Expr, context: Namespace) {
+    fn eval(&mut self, expr: &Expr, context: Namespace, deps: &mut Vec<Id>) {
         match *expr {
             Expr::Unit { ref name } => {
                 let name = self.intern(name);
-                self.lookup(&name, context);
+                self.lookup(&name, context, deps);
             }
             Expr::BinOp(BinOpExpr {
                 ref left,
                 ref right,
                 ..
             }) => {
-                self.eval(left, context);
-                self.eval(right, context);
+                self.eval(left, context, deps);
+                self.eval(right, context, deps);
             }
-            Expr::UnaryOp(ref unaryop) => self.eval(&unaryop.expr, context),
-            Expr::Of { ref expr, .. } => self.eval(expr, context),
+            Expr::UnaryOp(ref unaryop) => self.eval(&unaryop.expr, context, deps),
+            Expr::Of { ref expr, .. } => self.eval(expr, context, deps),
 
             Expr::Mul { ref exprs }
             | Expr::Call {
                 args: ref exprs, ..
             } => {
                 for expr in exprs {
-                    self.eval(expr, context);
+                    self.eval(expr, context, deps);
                 }
             }
             _ => (),
         }
     }
 
-    fn visit(&mut self, id: &Id) {
-        // A base unit's long name comes into existence with the base unit.
-        if self.unmarked.get(id).is_none() {
-            if let Some(base_unit) = self.long_names.get(id).cloned() {
-                // Only when it's still to be loaded: `a !a` or
-                // `a !b` with `b !a` name each other.
-                if self.unmarked.get(&base_unit).is_some() {
-                    return self.visit(&base_unit);
+    /// What the definition of `id` refers to.
+    fn dependencies(&mut self, id: &Id) -> Vec<Id> {
+        let mut deps = vec![];
+        if let Some(v) = self.input.get(id).cloned() {
+            match *v {
+                Def::Prefix { ref expr, .. }
+                | Def::Unit { ref expr }
+                | Def::Quantity { ref expr } => self.eval(expr, id.namespace, &mut deps),
+                Def::Substance { ref properties, .. } => {
+                    for prop in properties {
+                        self.eval(&prop.input, id.namespace, &mut deps);
+                        self.eval(&prop.output, id.namespace, &mut deps);
+                    }
                 }
+                _ => (),
             }
         }
-        if self.temp_marks.get(id).is_some() {
-            self.errors
-                .push(format!("Unit {} has a dependency cycle", id));
-            return;
-        }
-        if self.unmarked.get(id).is_some() {
-            self.temp_marks.insert(id.clone());
-            if let Some(v) = self.input.get(id).cloned() {
-                match *v {
-                    Def::Prefix { ref expr, .. }
-                    | Def::Unit { ref expr }
-                    | Def::Quantity { ref expr } => self.eval(expr, id.namespace),
-                    Def::Substance { ref properties, .. } => {
-                        for prop in properties {
-                            self.eval(&prop.input, id.namespace);
-                            self.eval(&prop.output, id.namespace);
+        deps
+    }
+
+    fn visit(&mut self, id: &Id) {
+        // The definitions being visited, each with what it refers to
+        // and how much of that has been visited.
+        let mut stack: Vec<(Id, Vec<Id>, usize)> = vec![];
+        let mut next = Some(id.clone());
+        loop {
+            if let Some(mut id) = next.take() {
+                // A base unit's long name comes into existence with the base unit.
+                if self.unmarked.get(&id).is_none() {
+                    if let Some(base_unit) = self.long_names.get(&id).cloned() {
+                        // Only when it's still to be loaded: `a !a` or
+                        // `a !b` with `b !a` name each other.
+                        if self.unmarked.get(&base_unit).is_some() {
+                            id = base_unit;
                         }
                     }
-                    _ => (),
+                }
+                if self.temp_marks.get(&id).is_some() {
+                    self.errors
+                        .push(format!("Unit {} has a dependency cycle", id));
+                } else if self.unmarked.get(&id).is_some() {
+                    self.temp_marks.insert(id.clone());
+                    let deps = self.dependencies(&id);
+                    stack.push((id, deps, 0));
                 }
             }
-            self.unmarked.remove(id);
-            self.temp_marks.remove(id);
-            self.sorted.push(id.clone());
+            match stack.last_mut() {
+                None => break,
+                Some((_, deps, visited)) if *visited < deps.len() => {
+                    next = Some(deps[*visited].clone());
+                    *visited += 1;
+                }
+                Some(_) => {
+                    let (id, _, _) = stack.pop().unwrap();
+                    self.unmarked.remove(&id);
+                    self.temp_marks.remove(&id);
+                    self.sorted.push(id);
+                }
+            }
         }
     }
 }
